@@ -90,3 +90,34 @@ func GenExhaustiveAxes(w *Writer, maxNodes int) (docs int, err error) {
 	}
 	return docs, nil
 }
+
+// GenExhaustiveAxisPairs: every document with at most maxNodes tree nodes × every node as the start
+// of the query × every ORDERED PAIR of axes: `ax1::node()/ax2::node()`.  The first step is evaluated
+// from one node, so a reverse axis hands its nodes to the second step nearest-first: the second
+// step is the set-at-a-time walker applied to a node-set in REVERSE document order with several
+// siblings / nested nodes in it (seeded changes C18-6, C01-6: a walker that is only right for
+// input in document order, or that walks only the earliest context node).
+func GenExhaustiveAxisPairs(w *Writer, maxNodes int, fam string) (docs int, err error) {
+	id := 0
+	for n := 1; n <= maxNodes; n++ {
+		for _, f := range forests(n) {
+			first := true
+			evs := shapeEvents(f, &first, nil)
+			id++
+			doc, e := w.NewDoc(fmt.Sprintf("xp%d", id), evs)
+			if e != nil {
+				return docs, e
+			}
+			docs++
+			for c := range doc.Dump.Cursors {
+				for _, ax1 := range AllAxes {
+					for _, ax2 := range AllAxes {
+						ex := Step{Base: Step{Base: Ctx{}, Axis: ax1, Test: Test{Kind: "node"}}, Axis: ax2, Test: Test{Kind: "node"}}
+						w.Eval(EvalCase{Fam: fam, Doc: doc, Env: Env{}, Start: c, E: ex, Xpath: Render(ex, &Style{})})
+					}
+				}
+			}
+		}
+	}
+	return docs, nil
+}
